@@ -19,7 +19,7 @@ let handle ws = match ws with
       | Some sd -> (match cms_verify sd with
           | Some (c', certs) -> if c' = con then Printf.sprintf "S=1 V=1 ncerts=%d ninfos=%d" (List.length certs) (List.length sd.sd_infos) else "S=1 V=OTHER-CONTENT"
           | None -> "S=1 V=ERR"))
-  | ["sign0"; c] ->
+  | ["sign0"; _; c] ->
     let sd = { sd_content = content_of "data" c; sd_certs = [cert_of 1]; sd_infos = [] } in
     both (fun _ -> match cms_verify sd with Some _ -> "V=1" | None -> "V=ERR")
   | ["env"; r; op; src; c] ->
